@@ -196,7 +196,16 @@ def work(spec):
             def differs(c):
                 seen = [(t[c][1], t[c][2].get("bandwidth"), clk) for t, clk in table.values() if c in t]
                 return len(set(seen)) > 1
-            if all(differs(f.split("/")[1]) for f in failing):
+            # finding 12 is "the configuration declared LAST wins": only an Einsum that runs on an EARLIER configuration
+            # than the last one declaring the component can be affected by it
+            cfg_of = einsum_configs(spec)
+            order = list(table)
+
+            def shadowed(f):
+                e, c = f.split("/")[:2]
+                last = [k for k in order if c in table[k][0]][-1]
+                return cfg_of.get(e) != last
+            if all(differs(f.split("/")[1]) and shadowed(f) for f in failing):
                 cause = "same-name-in-two-configs"
         return dict(out, status="violation", confirmed=confirmed, why="%s (e.g. %s)" % (what, vals),
                     sig={"engine": "E1", "family": "metrics", "what": re.sub(r"^[^:]*: ", "", what)[:40], "cause": cause},
